@@ -8,6 +8,7 @@ import (
 	"path/filepath"
 	"regexp"
 	"sort"
+	"strconv"
 	"strings"
 	"time"
 )
@@ -26,6 +27,33 @@ var findingRe = regexp.MustCompile(`^finding:\s+property=(\S+)\s+obligation="([^
 var oblSuffixRe = regexp.MustCompile(`((\.\d+)+)?(~\d+)?$`)
 
 func oblBase(name string) string { return oblSuffixRe.ReplaceAllString(name, "") }
+
+// oblMatches compares a recorded obligation name with a failed one by base name. For findings in *generated* code
+// the recorded name may contain '*' wildcards standing for the instance-specific parts (package, type and list
+// names): the finding is then one defect of a generator template, exhibited by every instance of that template.
+func oblMatches(recorded, name string) bool {
+	r, n := oblBase(recorded), oblBase(name)
+	if !strings.Contains(r, "*") {
+		return r == n
+	}
+	parts := strings.Split(r, "*")
+	if !strings.HasPrefix(n, parts[0]) {
+		return false
+	}
+	n = n[len(parts[0]):]
+	for i := 1; i < len(parts); i++ {
+		p := parts[i]
+		if i == len(parts)-1 {
+			return strings.HasSuffix(n, p)
+		}
+		k := strings.Index(n, p)
+		if k < 0 {
+			return false
+		}
+		n = n[k+len(p):]
+	}
+	return true
+}
 
 func loadKnownFindings(path string) []KnownFinding {
 	f, err := os.Open(path)
@@ -75,6 +103,7 @@ type runOpts struct {
 	bounded     []map[string]any
 	seed        int64
 	level       string
+	genInstances []string
 }
 
 // finishRun filters obligations by property, handles failures (known findings, replay), writes evidence, returns exit code.
@@ -160,7 +189,7 @@ func finishRun(e *Engine, results []*FnResult, ro runOpts) int {
 			// known finding?
 			isKnown := false
 			for ki, k := range known {
-				if k.Property == ro.prop && oblBase(k.Obligation) == oblBase(o.Name) {
+				if k.Property == ro.prop && oblMatches(k.Obligation, o.Name) {
 					if !knownPrinted[ki] {
 						fmt.Printf("KNOWN-FINDING: property=%s %s (obligation %s)\n", ro.prop, k.What, oblBase(o.Name))
 						knownPrinted[ki] = true
@@ -191,6 +220,9 @@ func finishRun(e *Engine, results []*FnResult, ro runOpts) int {
 				budget := 150 * time.Second
 				if ro.tier == "thorough" {
 					budget = 900 * time.Second
+				}
+				if s, err := strconv.Atoi(os.Getenv("VERIF_FAIL_BUDGET_S")); err == nil && s >= 0 {
+					budget = time.Duration(s) * time.Second // self-test runs only need the verdict
 				}
 				e.failDeadline = time.Now().Add(budget)
 			}
@@ -303,6 +335,9 @@ func finishRun(e *Engine, results []*FnResult, ro runOpts) int {
 	}
 	if len(ro.bounded) > 0 {
 		cov["bounded_checks"] = ro.bounded
+	}
+	if len(ro.genInstances) > 0 {
+		cov["generated_instances"] = ro.genInstances
 	}
 	level := ro.level
 	if level == "" {
